@@ -21,6 +21,47 @@ muts = sorted(os.path.basename(p) for p in glob.glob(os.path.join(V, "mutants", 
 mut = "\n".join("- `%s`" % m for m in muts)
 p = os.path.join(V, "DESIGN.md")
 s = open(p).read()
+# ---- section 3: per-property blocks from the META / MANIFEST dictionaries of the checks (read with the repository's interpreter)
+dump = subprocess.run(["/venv/bin/python", "-c", (
+    "import sys, json, importlib; sys.path.insert(0, %r)\n"
+    "out = {}\n"
+    "for i in range(1, 21):\n"
+    "    m = importlib.import_module('vlib.props.c%%02d' %% i)\n"
+    "    out['C%%02d' %% i] = {'META': m.META, 'MANIFEST': m.MANIFEST, 'shards': [m.shards('quick'), m.shards('thorough')]}\n"
+    "print(json.dumps(out, default=repr))\n") % V], capture_output=True, text=True, env=dict(os.environ, PYTHONWARNINGS="ignore", MPLBACKEND="Agg"))
+blocks = []
+if dump.returncode == 0:
+    metas = json.loads(dump.stdout.strip().splitlines()[-1])
+    appb = s[s.index("## Appendix B"):] if "## Appendix B" in s else ""
+
+    def para(pid, label):
+        m_ = re.search(r"### %s .*?\n(.*?)(?=\n### C\d\d |\Z)" % pid, appb, flags=re.S)
+        if not m_:
+            return None
+        q = re.search(r"\*%s[^*]*\*\s*(.*?)(?=\n\n\*[A-Z]|\Z)" % label, m_.group(1), flags=re.S)
+        return " ".join(q.group(1).split()) if q else None
+    for pid in sorted(metas):
+        M, F = metas[pid]["META"], metas[pid]["MANIFEST"]
+        b = ["### %s — %s" % (pid, M["title"]), ""]
+        r = para(pid, "Refuting events")
+        if r:
+            b += ["*Refuting events.* " + r, ""]
+        b += ["*Deciding technique.* " + F["technique"] + ".", ""]
+        b += ["*Deciding monitors (a run in which one of them has 0 evaluations is inconclusive).* " + ", ".join("`%s`" % d for d in M["deciding"]) + ".", ""]
+        b += ["*What a run does.* " + F["level_text"], ""]
+        b += ["*Workload, non-trivial / distinct rule (also written into the evidence file).* " + M["rule"] + (" " + M["added"] if M.get("added") else ""), ""]
+        if M.get("exhaustive_tiers"):
+            b += ["*Exhaustively enumerated sub-spaces.* " + "; ".join("%s: %s" % (t, ", ".join("%s%s" % (k, "" if v is True else " = %s" % v) for k, v in d.items()))
+                                                                       for t, d in M["exhaustive_tiers"].items()) + ".", ""]
+        b += ["*Trusted / assumed.* " + "; ".join(M.get("assumptions", [])) + (". " + F["level_note"] if F.get("level_note") else "."), ""]
+        lim = para(pid, "Limits")
+        if lim:
+            b += ["*Limits.* " + lim, ""]
+        b += ["*Shards.* quick %d, thorough %d (one subprocess each, merged by the parent)." % tuple(metas[pid]["shards"]), ""]
+        blocks.append("\n".join(b))
+    s = re.sub(r"(<!-- BEGIN:asbuilt -->)(.*?)(<!-- END:asbuilt -->)", lambda m_: m_.group(1) + "\n" + "\n".join(blocks) + m_.group(3), s, flags=re.S)
+else:
+    print("asbuilt block NOT regenerated:", dump.stderr[-300:])
 for name, body in (("findings", findings), ("seeded", seeded), ("mutants", mut)):
     s = re.sub(r"(<!-- BEGIN:%s -->)(.*?)(<!-- END:%s -->)" % (name, name), lambda m_: m_.group(1) + "\n" + body + "\n" + m_.group(3), s, flags=re.S)
 open(p, "w").write(s)
